@@ -51,6 +51,9 @@ def callee_last(t):
 def const_val(t):
     """numeric value of a constant term (int or float) or None"""
     t = strip_casts(t, ('IntToInt', 'FloatToFloat', 'IntToFloat'))
+    if t[0] == 'un' and t[1] == 'Neg':
+        v = const_val(t[2])         # the negation of a (named) constant is a constant
+        return None if v is None else -v
     if t[0] in ('const',) and t[2] is not None:
         v = t[2]
     elif t[0] == 'cnamed' and t[3] is not None:
